@@ -1,3 +1,4 @@
+use std::fmt::Write;
 use std::rc::Rc;
 
 use chrono::{TimeZone, Utc};
@@ -20,7 +21,12 @@ pub fn get() -> FunctionDefinitions {
                     let nsecs = ((since_epoch - (seconds as f64)) * 1e9) as u32;
                     if let Some(datetime) = Utc.timestamp_opt(seconds, nsecs).single() {
                         if let Some(JsonValue::String(format)) = self.0.apply(value, 1) {
-                            Some(datetime.format(&format).to_string().into())
+                            let mut formatted = String::new();
+                            if write!(formatted, "{}", datetime.format(&format)).is_ok() {
+                                Some(formatted.into())
+                            } else {
+                                None
+                            }
                         } else {
                             None
                         }
